@@ -275,6 +275,53 @@ def transportNoise (modelObs impl : String) : Bool :=
     ((getS (parseKV o) "s").splitOn ",").any fun e => match e.splitOn ":" with | [_, p, _] => p == code | _ => false
   (has impl "503" && !has modelObs "503") || (has impl "504" && !has modelObs "504")
 
+/-! TLS targets scripted per connection (harness: tlstarget.go) -/
+
+/-- what a connection of kind `tok` is for the gun: `h2gun` = the gun offers `h2` only (http2, http2/scenario), else it
+offers http/1.1 only (http with `ssl`): every TLS server of the plan serves it. `none`: unknown token. -/
+def connFateOf (h2gun : Bool) (tok : String) : Option ConnFate :=
+  let alert : Option ConnFate :=
+    if tok.startsWith "a" then
+      match (String.ofList (tok.toList.drop 1)).splitOn "." with
+      | [l, c] => do pure (.fails (alertErr (← l.toNat?) (← c.toNat?)))
+      | _ => none
+    else none
+  match tok with
+  | "h2" | "h2v12" => some .h2
+  -- a server offering http/1.1 only answers the `h2`-only offer with alert 120 (crypto/tls does, by itself)
+  | "h1" => some (if h2gun then .fails (alertErr 2 120) else .h2)
+  -- no ALPN at all: the handshake completes, `NegotiatedProtocol` is empty, the server speaks HTTP/1.1
+  | "noalpn" => some (if h2gun then .noH2 (some ("", false)) else .h2)
+  -- client certificate required: bad_certificate inside the TLS 1.2 handshake, certificate_required on the
+  -- established TLS 1.3 connection (an alert at any level is an error there)
+  | "cc12" => some (.fails (alertErr 2 42))
+  | "cc13" => some (.fails (alertErr 2 116))
+  | "warn" | "eof0" | "eof" | "rst" | "garb" | "trunc" | "big" | "badsh" | "stall" => some (.fails {})
+  | _ => alert
+
+/-- connections whose cost in connection attempts the client library decides (the alert arrives on an established
+connection: the pending request fails, but the pool may or may not have handed the dead connection out) -/
+def connRacy (tok : String) : Bool := tok == "cc13"
+
+structure ConnPlan where
+  fates : List ConnFate
+  dflt : ConnFate
+  racy : Bool
+
+def parsePlan (h2gun : Bool) (s : String) : Option ConnPlan := do
+  let toks := splitList s "/"
+  let fates ← toks.mapM (connFateOf h2gun)
+  let dflt ← fates.getLast?
+  pure { fates := fates, dflt := dflt, racy := toks.any connRacy }
+
+/-- all scenario shots of one client over a connection plan -/
+def scenarioShotsOverConns (dka : Bool) (dflt : ConnFate) (h2 : Bool) (steps : List (StepCfg × Reply)) :
+    Nat → Bool → List ConnFate → List GunShot
+  | 0, _, _ => []
+  | n + 1, isOpen, plan =>
+    let t := scenarioOverConns dka dflt h2 isOpen plan steps
+    GunShot.scenario h2 "scn" t.1 :: scenarioShotsOverConns dka dflt h2 steps n t.2.1 t.2.2
+
 def handleRun (kv : List (String × String)) (impl : String) : String × String :=
   let (res, n) := implRes impl
   let noCfg : AutoTagCfg := { enabled := false, uriElements := 2, noTagOnly := true }
@@ -284,18 +331,40 @@ def handleRun (kv : List (String × String)) (impl : String) : String × String 
     let tgt := getS kv "tgt"
     -- what the peer negotiates: `tls1` answers the ALPN offer `h2` with the alert "no application protocol";
     -- `tls2` negotiates h2 mutually; a plain-TCP target (`live`) breaks the TLS handshake (an ordinary error)
-    let facts : H2Facts := { alpnAlert := tgt == "tls1", tls := if tgt == "tls2" then some ("h2", true) else none }
+    -- (`h2raw`: TLS with h2 negotiated, then scripted frames)
+    let h2ok := tgt == "tls2" || tgt == "h2raw"
+    let facts : H2Facts := .ofAlpnAlert (tgt == "tls1") (if h2ok then some ("h2", true) else none)
     -- `c403` … : the connect gun's CONNECT request is refused / answered with garbage / stray bytes / dropped: no tunnel
-    let noConn := tgt == "dead" || (h2 && tgt != "tls2") || ["c403", "cgarbage", "cextra", "cclose"].contains tgt
+    let noConn := tgt == "dead" || (h2 && !h2ok && tgt != "tlsplan") || ["c403", "cgarbage", "cextra", "cclose"].contains tgt
     let reqs := splitList (getS kv "reqs") ","
     let truths := reqs.map fun r => match r.splitOn ":" with | [_, t] => t | _ => "f"
-    let cycle : List GunShot := (List.range reqs.length).map fun i =>
+    let m := (getN? kv "m").getD 1
+    let inst := (getN? kv "inst").getD 1
+    let replies : List Reply := (List.range reqs.length).map fun i =>
       let (script, truth) := match (reqs[i]!).splitOn ":" with
         | [s, t] => (s, t)
         | _ => ("", "f")
-      let reply := if noConn then Reply.noResponse .other else replyOf truth script
-      .http h2 facts noCfg s!"r{i}" (i + 1) s!"/p/{i}" reply
-    let m := (getN? kv "m").getD 1
+      if noConn then Reply.noResponse .other else replyOf truth script
+    let mk (i : Nat) (f : H2Facts) (r : Reply) : GunShot := .http h2 f noCfg s!"r{i}" (i + 1) s!"/p/{i}" r
+    if tgt == "tlsplan" then
+      match parsePlan h2 (getS kv "plan") with
+      | none => ("-", "fail:driver:unparsable plan")
+      | some plan =>
+        let n0 := reqs.length
+        let idx := replicate m (List.range n0)
+        let frs := connShots (getS kv "dka" == "1") plan.dflt false plan.fates (replicate m replies)
+        let shots := (idx.zip frs).map fun (i, f, r) => mk i f r
+        let run := instanceRun (shots.map GunShot.run)
+        -- one client, no connection whose cost the library decides: the assignment of requests to connections is exact
+        let certain := inst == 1 && !plan.racy
+        let fatal := if certain then shots.any GunShot.documentedFatal else h2 && (plan.fates.any ConnFate.fatal)
+        let v0 := Spec.C19.judgeRun fatal shots.length shots.length shots.length res n
+        -- ground truth per request: what the script says, or a failure when its connection fails
+        let truthTab := (List.range n0).map fun i => (hexOfStr s!"r{i}", "o" ++ truths[i]!)
+        let v := if v0 != "ok" || res != "ok" then v0 else Spec.C19.judgeCarry truthTab (getS (parseKV impl) "s")
+        if certain && !truths.any truthUnknown then (fmtRun run "panic:not-http2", v) else ("-", v)
+    else
+    let cycle : List GunShot := (List.range reqs.length).map fun i => mk i facts (replies.getD i (.noResponse .other))
     let shots := replicate m cycle
     let run := instanceRun (shots.map GunShot.run)
     let fatal := shots.any GunShot.documentedFatal
@@ -304,13 +373,14 @@ def handleRun (kv : List (String × String)) (impl : String) : String × String 
     let truthTab := (List.range reqs.length).map fun i => (hexOfStr s!"r{i}", if noConn then "f" else truths[i]!)
     let v := if v0 != "ok" || fatal then v0 else Spec.C19.judgeCarry truthTab (getS (parseKV impl) "s")
     -- not predicted: a script whose fate the library decides; how many instances get a shot in before a failing pool stops
-    if (!noConn && truths.any truthUnknown) || (fatal && (getN? kv "inst").getD 1 > 1) then ("-", v)
+    if (!noConn && truths.any truthUnknown) || (fatal && inst > 1) then ("-", v)
     else (fmtRun run "panic:not-http2", v)
   | "http/scenario" | "http2/scenario" =>
     let h2 := getS kv "gun" == "http2/scenario"
     let tgt := getS kv "tgt"
-    let facts : H2Facts := { alpnAlert := tgt == "tls1", tls := if tgt == "tls2" then some ("h2", true) else none }
-    let noConn := tgt == "dead" || (h2 && tgt != "tls2")
+    let h2ok := tgt == "tls2" || tgt == "h2raw"
+    let facts : H2Facts := .ofAlpnAlert (tgt == "tls1") (if h2ok then some ("h2", true) else none)
+    let noConn := tgt == "dead" || (h2 && !h2ok && tgt != "tlsplan")
     let parsed := (splitList (getS kv "steps") ";").mapM fun st =>
       match st.splitOn "," with
       | [name, script, truth, pps] => do
@@ -320,13 +390,20 @@ def handleRun (kv : List (String × String)) (impl : String) : String × String 
         let reply := if noConn then Reply.noResponse .other else replyOf truth script
         pure (cfg, reply)
       | _ => none
-    match parsed with
-    | none => ("-", "fail:driver:unparsable steps")
-    | some steps =>
+    match parsed, (if tgt == "tlsplan" then (parsePlan h2 (getS kv "plan")).map some else some none) with
+    | none, _ => ("-", "fail:driver:unparsable steps")
+    | _, none => ("-", "fail:driver:unparsable plan")
+    | some steps, some plan? =>
       let shotsN := (getN? kv "n").getD 1
-      let shots := List.replicate shotsN (GunShot.scenario h2 facts "scn" steps)
+      let inst := (getN? kv "inst").getD 1
+      let shots : List GunShot := match plan? with
+        | none => List.replicate shotsN (GunShot.scenario h2 "scn" (steps.map fun (c, r) => (c, facts, r)))
+        | some plan => scenarioShotsOverConns (getS kv "dka" == "1") plan.dflt h2 steps shotsN false plan.fates
       let run := instanceRun (shots.map GunShot.run)
-      let fatal := shots.any GunShot.documentedFatal
+      let certain := match plan? with | none => true | some plan => inst == 1 && !plan.racy
+      let fatal := match plan? with
+        | some plan => if certain then shots.any GunShot.documentedFatal else h2 && plan.fates.any ConnFate.fatal
+        | none => shots.any GunShot.documentedFatal
       let v := Spec.C19.judgeRun fatal shotsN shotsN (shotsN * steps.length) res n
       -- not predicted: a step whose request is built from a variable of an earlier RESPONSE (the rendered request may
       -- or may not be sendable), a script whose fate the library decides
@@ -335,7 +412,7 @@ def handleRun (kv : List (String × String)) (impl : String) : String × String 
         match f with
         | [_, _, truth, pps] => truthUnknown truth || (splitList pps "+").contains "U"
         | _ => false
-      if unknown || (fatal && (getN? kv "inst").getD 1 > 1) then ("-", v) else (fmtRun run "panic:not-http2", v)
+      if unknown || !certain || (fatal && inst > 1) then ("-", v) else (fmtRun run "panic:not-http2", v)
   | "grpc" =>
     let parsed := (splitList (getS kv "reqs") ",").mapM fun r =>
       match r.splitOn ":" with
